@@ -7,13 +7,16 @@ use crate::core::*;
 use lef21::LefLibrary;
 use serde_json::{json, Value};
 
-pub const FAMILIES: [&str; 23] = [
+pub const FAMILIES: [&str; 27] = [
     "many-macros", "many-pins", "long-point-list", "long-comment-line", "beginext-words-on-one-line", "beginext-words-on-many-lines", "error-after-a-long-line",
     // one family per repeated list of the grammar that the first seven do not stretch
     "many-macro-properties", "many-pin-properties", "many-ports", "many-obs-layers", "many-rects", "many-layer-vias", "many-propdefs", "many-sites", "many-vias", "many-density-rects",
     "many-antenna-attrs", "many-extensions",
     // the same lists with the shortest possible items (many more items per KiB: per-item scans over the list show)
     "many-minimal-macros", "many-minimal-pins", "many-minimal-ports", "many-minimal-obs-layers",
+    // half the text one of those lists, the other half the words of an extension block after it (what one statement
+    // kind leaves behind in the reader must not make another one slower)
+    "minimal-macros-then-extension", "minimal-pins-then-extension", "minimal-ports-then-extension", "minimal-obs-layers-then-extension",
 ];
 
 pub fn sizes(t: Tier) -> [usize; 3] {
@@ -136,6 +139,28 @@ pub fn text(family: &str, kib: usize) -> String {
             }
             s.push_str("END big\n");
         }
+        "minimal-macros-then-extension" | "minimal-pins-then-extension" | "minimal-ports-then-extension" | "minimal-obs-layers-then-extension" => {
+            let first = match family {
+                "minimal-macros-then-extension" => "many-minimal-macros",
+                "minimal-pins-then-extension" => "many-minimal-pins",
+                "minimal-ports-then-extension" => "many-minimal-ports",
+                _ => "many-minimal-obs-layers",
+            };
+            // (the list half is built by the family of that name at half the size; its header is not repeated)
+            let half = text(first, (kib / 2).max(1));
+            s.clear();
+            s.push_str(half.strip_suffix("END LIBRARY\n").unwrap_or(&half));
+            s.push_str("BEGINEXT \"tag\"\n");
+            let mut i = 0;
+            while s.len() < target {
+                s.push_str(&format!("w{} ", i % 97));
+                i += 1;
+                if i % 12 == 0 {
+                    s.push('\n');
+                }
+            }
+            s.push_str("\nENDEXT\n");
+        }
         "many-propdefs" => {
             s.push_str("PROPERTYDEFINITIONS\n");
             let mut i = 0;
@@ -255,7 +280,8 @@ pub struct C11Lin;
 impl C11Lin {
     fn family(&self, family: &str, cx: &mut Cx) {
         let key = format!("lin:{family}");
-        let sizes = sizes(cx.tier);
+        // (the two-part families are measured at eight times the size: what a list leaves behind costs little per item)
+        let sizes = if family.ends_with("-then-extension") { sizes(cx.tier).map(|k| 8 * k) } else { sizes(cx.tier) };
         let mut counts = [0u64; 3];
         for (i, kib) in sizes.iter().enumerate() {
             if !cx.enter(&key) {
@@ -302,13 +328,14 @@ impl C11Lin {
         cx.tag("part:linear-time");
         cx.stats.evaluations += 1;
         let (d1, d2) = (counts[1].saturating_sub(counts[0]), counts[2].saturating_sub(counts[1]));
-        if d2 > 3 * d1 && d2 > counts[0] / 10 {
+        // second criterion: four times the text may cost at most six times the instructions (linear => 4, quadratic => 16)
+        if (d2 > 3 * d1 && d2 > counts[0] / 10) || counts[2] > 6 * counts[0] {
             cx.outcome("linear-time:superlinear");
             cx.fail(
                 &key,
                 "superlinear",
                 None,
-                || format!("family {family}: instructions {} / {} / {} for {} / {} / {} KiB; I(4N)-I(2N) = {d2} > 3 x (I(2N)-I(N)) = {}", counts[0], counts[1], counts[2], sizes[0], sizes[1], sizes[2], 3 * d1),
+                || format!("family {family}: instructions {} / {} / {} for {} / {} / {} KiB; I(4N)-I(2N) = {d2} against 3 x (I(2N)-I(N)) = {}, I(4N) against 6 x I(N) = {}", counts[0], counts[1], counts[2], sizes[0], sizes[1], sizes[2], 3 * d1, 6 * counts[0]),
                 || json!({"family": family, "instructions": counts}),
             );
         } else {
@@ -380,7 +407,7 @@ impl Driver for C11Lin {
         let s = sizes(tier);
         Describe {
             rule: format!(
-                "linear-time evidence: for the text families {FAMILIES:?} at {} / {} / {} KiB the stand-alone reader (`l21mc lefread`) runs under `valgrind --tool=cachegrind --cache-sim=no`; the deterministic instruction counts must satisfy I(4N)-I(2N) <= 3 x (I(2N)-I(N)) (linear => 2, quadratic => 4; differences below 10 % of I(N) count as noise); counts echoed under alphabet_use as instructions:<family>:<size>. Each text also passes the in-process no-panic oracle. Stack depth: six deep-shaped valid texts ({} lines / statements: blank lines, comment lines, many macros, many pins, one huge line, BEGINEXT words) are read by the same stand-alone reader built in cargo's default dev profile under an 8 MiB stack; it must exit normally (the optimised harness build can hide recursion that the profile users test with does not).",
+                "linear-time evidence: for the text families {FAMILIES:?} at {} / {} / {} KiB (the list-then-extension families at eight times that) the stand-alone reader (`l21mc lefread`) runs under `valgrind --tool=cachegrind --cache-sim=no`; the deterministic instruction counts must satisfy I(4N)-I(2N) <= 3 x (I(2N)-I(N)) (linear => 2, quadratic => 4; differences below 10 % of I(N) count as noise) and I(4N) <= 6 x I(N); counts echoed under alphabet_use as instructions:<family>:<size>. Each text also passes the in-process no-panic oracle. Stack depth: six deep-shaped valid texts ({} lines / statements: blank lines, comment lines, many macros, many pins, one huge line, BEGINEXT words) are read by the same stand-alone reader built in cargo's default dev profile under an 8 MiB stack; it must exit normally (the optimised harness build can hide recursion that the profile users test with does not).",
                 s[0], s[1], s[2], tier.pick(100_000, 400_000)
             ),
             assumptions: vec!["time proportional to the input length is decided as 'terminates under the watchdog on every explored input' plus this bounded instruction-count test on the listed shape families; evidence of linear behaviour on those families up to that size, not a complexity proof. If valgrind cannot be run the part is skipped and reported as cap 'cachegrind-unavailable'".into()],
